@@ -29,9 +29,9 @@ def sh(cmd, cwd=None, env=None, timeout=3600):
     return p.returncode, p.stdout + p.stderr
 
 
-def confirm(prop, x):
-    wt = f"/tmp/seed/{prop}"
-    src = f"/tmp/seed/{prop}-out/{x}"
+def confirm(prop, x, base="/tmp/seed", keep_as=None):
+    wt = f"{base}/{prop}"
+    src = f"{base}/{prop}-out/{x}"
     sh(["git", "checkout", "--", "."], cwd=wt)
     rc_clean, out_clean = sh([PY, "-B", f"{src}/demo.py", wt], cwd=src)
     rc_apply, out_apply = sh(["git", "apply", f"{src}/patch.diff"], cwd=wt)
@@ -44,15 +44,16 @@ def confirm(prop, x):
     if not ok:
         print(out_clean[-500:], out_apply[-500:], out_p[-500:])
         return False
-    dst = os.path.join(VERIF, "seeded", f"{prop}-{x}")
+    keep_as = keep_as or x
+    dst = os.path.join(VERIF, "seeded", f"{prop}-{keep_as}")
     os.makedirs(dst, exist_ok=True)
     shutil.copy(f"{src}/patch.diff", dst)
     shutil.copy(f"{src}/demo.py", dst)
     meta = json.load(open(f"{src}/meta.json"))
-    meta["id"] = f"{prop}-{x}"
+    meta["id"] = f"{prop}-{keep_as}"
     meta["author"] = "independent sub-agent given only the property text and a scratch worktree"
     meta["confirmed_by_me"] = {
-        "worktree": "scratch git worktree of /repo HEAD under /tmp/seed (removed afterwards)",
+        "worktree": f"scratch git worktree of /repo HEAD under {base} (removed afterwards)",
         "demo_clean_exit": rc_clean,
         "patch_applies": rc_apply == 0,
         "tests_with_patch": tail,
@@ -105,7 +106,9 @@ def run(ids, tier="quick"):
 
 if __name__ == "__main__":
     if sys.argv[1] == "confirm":
-        sys.exit(0 if confirm(sys.argv[2], sys.argv[3]) else 1)
+        base = sys.argv[4] if len(sys.argv) > 4 else "/tmp/seed"
+        keep_as = sys.argv[5] if len(sys.argv) > 5 else None
+        sys.exit(0 if confirm(sys.argv[2], sys.argv[3], base, keep_as) else 1)
     elif sys.argv[1] == "run":
         tier = "quick"
         ids = [a for a in sys.argv[2:] if not a.startswith("--")]
